@@ -65,6 +65,12 @@ class Peer:
                                          priv_alg=priv,
                                          priv_password=self._secret(auth, priv_pw, priv_kt, engine_id, priv),
                                          auth_key_type=auth_kt, priv_key_type=priv_kt)
+            if discover:
+                # what the client can do before it knows the engine id: keys localized to the empty engine id
+                st = self.state
+                self.state0 = ag.V3AgentState(b"", boots=0, time=0, user=user, auth_alg=auth,
+                                              auth_password=st.auth_secret, priv_alg=priv, priv_password=st.priv_secret,
+                                              auth_key_type=auth_kt, priv_key_type=priv_kt)
 
     @staticmethod
     def _secret(auth, pw, kt, engine_id, enabled):
@@ -95,6 +101,12 @@ class Peer:
 
     def decode(self, dg):
         if self.kind == "v3":
+            if self.discover:
+                try:
+                    if ber.decode_message(dg).get("engine_id") == b"":
+                        return self.state0.parse_request(dg)
+                except ber.BerError:
+                    pass
             return self.state.parse_request(dg)
         return ber.decode_message(dg)
 
@@ -131,11 +143,11 @@ class Conv:
     RECV = {"get": "recv_get", "getmany": "recv_get_many", "getnext": "recv_get_next", "getbulk": "recv_get_bulk",
             "refresh": "recv_refresh"}
 
-    def __init__(self, peer, e=None):
+    def __init__(self, peer, e=None, sock=None):
         self.e = e or env()
         self.peer = peer
         self.e.agent.recv_all()          # drop leftovers of earlier conversations
-        self.sock = peer.make_sock(self.e)
+        self.sock = sock if sock is not None else peer.make_sock(self.e)
         self.req = None
         self.raw = None
 
